@@ -38,6 +38,33 @@ type version struct {
 	// all scores, failed Sets), then compare the two with Go's == (C07: equal values
 	// => equal objects, whatever calls came before); also against ParseVector(Vector()) when that holds the same bytes
 	eqhist func(b []byte, abv string) string
+	// histscores: start from the object `a0`, score it, Set every metric to the value it has in `b` (scoring once more
+	// half-way), and return the final scores and bytes — all on ONE object, through the public API
+	histscores func(a0, b []byte) ([]float64, []byte)
+}
+
+func histScores[T any, P interface {
+	*T
+	Get(string) (string, error)
+	Set(string, string) error
+}](obj, target P, ms []metric, scores func(P) []float64, bytesOf func(P) []byte) ([]float64, []byte) {
+	quiet := func() {
+		defer func() { recover() }()
+		scores(obj)
+	}
+	quiet()
+	for i, mt := range ms {
+		// only the metrics that differ are Set (a Set of every metric could wipe hidden state by accident)
+		if val, err := target.Get(mt.abv); err == nil {
+			if cur, err2 := obj.Get(mt.abv); err2 != nil || cur != val {
+				obj.Set(mt.abv, val)
+			}
+		}
+		if i == len(ms)/2 {
+			quiet()
+		}
+	}
+	return scores(obj), bytesOf(obj)
 }
 
 func eqHist[T comparable, P interface {
@@ -109,6 +136,13 @@ func errS(code int, abv string) string { return fmt.Sprintf("%d:%s", code, hexS(
 
 var v20 = &version{
 	name: "20", n: 4, header: "", metrics: metrics20,
+	histscores: func(a0, b []byte) ([]float64, []byte) {
+		return histScores(gocvss20.VerifFromBytes([4]byte(a0)), gocvss20.VerifFromBytes([4]byte(b)), metrics20,
+			func(c *gocvss20.CVSS20) []float64 {
+				return []float64{c.BaseScore(), c.TemporalScore(), c.EnvironmentalScore(), c.Impact(), c.Exploitability()}
+			},
+			func(c *gocvss20.CVSS20) []byte { x := gocvss20.VerifBytes(c); return x[:] })
+	},
 	eqhist: func(b []byte, abv string) string {
 		return eqHist(gocvss20.VerifFromBytes([4]byte(b)), gocvss20.VerifFromBytes([4]byte(b)), gocvss20.ParseVector,
 			func(c *gocvss20.CVSS20) {
@@ -165,6 +199,13 @@ var v20 = &version{
 
 var v30 = &version{
 	name: "30", n: 6, header: "CVSS:3.0", metrics: metrics3,
+	histscores: func(a0, b []byte) ([]float64, []byte) {
+		return histScores(gocvss30.VerifFromBytes([6]byte(a0)), gocvss30.VerifFromBytes([6]byte(b)), metrics3,
+			func(c *gocvss30.CVSS30) []float64 {
+				return []float64{c.BaseScore(), c.TemporalScore(), c.EnvironmentalScore(), c.Impact(), c.Exploitability()}
+			},
+			func(c *gocvss30.CVSS30) []byte { x := gocvss30.VerifBytes(c); return x[:] })
+	},
 	eqhist: func(b []byte, abv string) string {
 		return eqHist(gocvss30.VerifFromBytes([6]byte(b)), gocvss30.VerifFromBytes([6]byte(b)), gocvss30.ParseVector,
 			func(c *gocvss30.CVSS30) {
@@ -230,6 +271,13 @@ var v30 = &version{
 
 var v31 = &version{
 	name: "31", n: 6, header: "CVSS:3.1", metrics: metrics3,
+	histscores: func(a0, b []byte) ([]float64, []byte) {
+		return histScores(gocvss31.VerifFromBytes([6]byte(a0)), gocvss31.VerifFromBytes([6]byte(b)), metrics3,
+			func(c *gocvss31.CVSS31) []float64 {
+				return []float64{c.BaseScore(), c.TemporalScore(), c.EnvironmentalScore(), c.Impact(), c.Exploitability()}
+			},
+			func(c *gocvss31.CVSS31) []byte { x := gocvss31.VerifBytes(c); return x[:] })
+	},
 	eqhist: func(b []byte, abv string) string {
 		return eqHist(gocvss31.VerifFromBytes([6]byte(b)), gocvss31.VerifFromBytes([6]byte(b)), gocvss31.ParseVector,
 			func(c *gocvss31.CVSS31) {
@@ -295,6 +343,11 @@ var v31 = &version{
 
 var v40 = &version{
 	name: "40", n: 9, header: "CVSS:4.0", metrics: metrics40,
+	histscores: func(a0, b []byte) ([]float64, []byte) {
+		return histScores(gocvss40.VerifFromBytes([9]byte(a0)), gocvss40.VerifFromBytes([9]byte(b)), metrics40,
+			func(c *gocvss40.CVSS40) []float64 { return []float64{c.Score()} },
+			func(c *gocvss40.CVSS40) []byte { x := gocvss40.VerifBytes(c); return x[:] })
+	},
 	eqhist: func(b []byte, abv string) string {
 		return eqHist(gocvss40.VerifFromBytes([9]byte(b)), gocvss40.VerifFromBytes([9]byte(b)), gocvss40.ParseVector,
 			func(c *gocvss40.CVSS40) { c.Score(); c.Nomenclature() },
